@@ -108,7 +108,7 @@ def c01(tier):
     exe = build('debug')
     wd = scratch('c01')
     progs = pool.corpus() + pool.random_programs(tier_sizes(tier, 300, 8000), size=tier_sizes(tier, 30, 45)) + \
-        pool.construct_family(pairs=(tier == 'thorough'), limit=tier_sizes(tier, 400, None)) + pool.sandwich_programs() + pool.let_slot_programs()
+        pool.construct_family(pairs=(tier == 'thorough'), limit=tier_sizes(tier, 400, None)) + pool.sandwich_programs() + pool.let_slot_programs() + pool.assign_slot_programs()
     # the real command line (exit status, stderr) for a sample, and always for the edge programs and for every construct placed as the last statement of the program
     outs, vs = judge_programs(chk, exe, progs, wd, 'c01', cli_sample=tier_sizes(tier, 60, 600),
                               cli_force=lambda n: n.startswith('edge:') or '/top_last/' in n or n.startswith('sandwich:if/two/'))
@@ -350,7 +350,7 @@ def c12(tier):
         progs.append({'name': 'manyscopes:%d' % (seed() * 100003 + k), 'text': unparse(ast), 'ast': strip_marks(ast)})
     chk.notes['many_scopes_programs'] = nmany
     # a let written directly in an operand slot declares its variable in the scope the expression stands in
-    ls = pool.let_slot_programs()
+    ls = pool.let_slot_programs() + pool.assign_slot_programs()
     progs += ls
     chk.notes['let_in_operand_slot_programs'] = len(ls)
     chk.notes['programs'] = len(progs)
@@ -753,6 +753,9 @@ FAULTS = {
     'operand-kind-boxed-both': lambda: Op('+', Obj(I(40), []), Obj(I(2), [])),
     'operand-kind-boxed-argument': lambda: Op('*', I(4), Obj(I(2), [Let('w', I(1))])),
     'operand-kind-boxed-boolean': lambda: Op('&', Obj(B(True), []), Obj(B(True), [])),
+    # a bare name is a variable, never a field of the receiver (or of whatever object stands in the first slot of the frame)
+    'bare-field-name-read': lambda: V('hf'),
+    'bare-field-name-assign': lambda: Asg('hf', I(1)),
     # fields are not inherited: only methods are looked up along the parent chain
     'inherited-field-read': lambda: GF(V('kid'), 'fld'),
     'inherited-field-assign': lambda: SF(V('kid'), 'fld', I(11)),
@@ -766,7 +769,7 @@ def fault_program(fault, position):
     at = lambda p: ([f] if p == position else [])
     es = [Fun('fn', ['a'], V('a')), Let('ob', Obj(N(), [Let('fld', I(1)), Fun('me', ['a'], V('a'))])), Let('ar', Arr(I(2), I(0))), Let('kid', Obj(V('ob'), [Let('mine', I(2))])),
           Fun('g', [], Blk([Pr('F\\n')] + at('fun') + [Pr('G\\n'), I(0)])),
-          Let('h', Obj(N(), [Fun('k', [], Blk([Pr('H\\n')] + at('meth') + [Pr('I\\n'), I(0)]))])),
+          Let('h', Obj(N(), [Let('hf', I(5)), Fun('k', [], Blk([Pr('H\\n')] + at('meth') + [Pr('I\\n'), I(0)]))])),
           Pr('A\\n')] + at('top') + [Pr('B\\n'),
           Blk([Pr('C\\n')] + at('block') + [Pr('D\\n')]),
           Let('i', I(0)), Wh(Op('<', V('i'), I(2)), Blk([Pr('E~\\n', [V('i')])] + at('loop') + [Asg('i', Op('+', V('i'), I(1)))])),
@@ -859,6 +862,7 @@ def c10(tier):
     if tier != 'thorough':
         # every class at >= 2 positions and every position with >= several classes
         combos = [(f, POSITIONS[(i + j) % len(POSITIONS)]) for i, f in enumerate(FAULTS) for j in (0, 4)]
+    combos += [(f, 'meth') for f in ('bare-field-name-read', 'bare-field-name-assign') if (f, 'meth') not in combos]
     for f, p in combos:
         ast = fault_program(f, p)
         progs.append({'name': 'fault:%s@%s' % (f, p), 'text': unparse(ast), 'ast': strip_marks(ast)})
